@@ -77,7 +77,17 @@ def check(case):
         lab = _labels(G.union_graph(want), len(want))
         variants = case.get("variants", ["int", "float", "nochain"])
         for var in variants:
-            if var == "weighted":
+            if var == "chain_plus_cancelling":
+                # the canonical unit-weight chain 0->1->...->p-1 plus the case's extra forward edges with weights +w, -w, ...
+                A = np.zeros((p, p))
+                for i in range(p - 1):
+                    A[i, i + 1] = 1.0
+                for n, (i, j) in enumerate(case["extra"]):
+                    A[i, j] = (0.5 if n % 2 == 0 else -0.5) * (1 + n // 2)
+                if G.rows_from_matrix(A) != D:
+                    raise ValueError("inconsistent chain_plus case")
+                kw = {}
+            elif var == "weighted":
                 A = signed_copy(D, case.get("salt", 0))
                 kw = {}
             elif var == "scaled":          # same pattern, weights 2 (chain pattern but not "the" chain matrix)
@@ -221,6 +231,13 @@ def _run_chain(acc, job):
                 for i in range(p - 1):
                     rel[perm[i]] |= 1 << perm[i + 1]
                 cases.append({"sub": "mec_chain", "A": G.lists_from_rows(tuple(rel)), "variants": ["int", "weighted"], "salt": p})
+        if 4 <= p <= 8:
+            # unit chain + two (four) extra forward edges with cancelling weights: the sum of all weights equals the chain's
+            extras = [[0, 2], [1, 3]] + ([[0, 3], [2, p - 1]] if p >= 6 else [])
+            rows = list(chain)
+            for (i, j) in extras:
+                rows[i] |= 1 << j
+            cases.append({"sub": "mec_chain", "A": G.lists_from_rows(tuple(rows)), "variants": ["chain_plus_cancelling", "float"], "extra": extras, "salt": p})
         for c in cases:
             try:
                 lab = check(c)
